@@ -19,6 +19,6 @@ ASSUMPTIONS = [
 HAND_LEMMAS = ["children partition their parent's frames: with contiguous child intervals (established by state_align_search_finish, not under contract) the sum of child durations is the parent's duration, which alignment_propagate is checked to compute"]
 NOT_COVERED = ["alignment_populate (phones of a word = dictionary pronunciation)", "state_align_search_finish backtrace (contiguity, positive durations)", "agreement of words / boundaries with the first-pass segmentation (decoder_alignment; the stale-aligner reuse of seeded change C04_B is detected by the C08 reset contract instead)", "word score = acoustic part of the first-pass score (cross-pass numeric relation, not contractible)", "the items above are NOT under contract; on real decodes they (except the word score = first-pass acoustic score relation, which does not hold on the unchanged tree and is not checked) are exercised only by the bounded native run e2e_invariants -- never counted as proved"]
 CLAIM = dict(
-    text="vector_grow_one is proved (loop-free): the entry count never exceeds the capacity, the new slot lies inside the (re)allocated block, and the 16-bit limit is reported by NULL with nothing changed. alignment_propagate is checked by CBMC on the real function over every hierarchy of <= 4 states / 3 phones / 2 words with symbolic values, including stale parent values from an earlier pass and single-child parents: a parent's duration and score are the sums over its children and it starts where its first child starts (bounded). The rest of the hierarchy construction is NOT covered.",
+    text="vector_grow_one is proved (loop-free): the entry count never exceeds the capacity, the new slot lies inside the (re)allocated block, and the 16-bit limit is reported by NULL with nothing changed. alignment_propagate is checked by CBMC on the real function over every hierarchy of <= 4 states / 3 phones / 2 words with symbolic values, including stale parent values from an earlier pass and single-child parents: a parent's duration and score are the sums over its children and it starts where its first child starts (bounded). The end-to-end clauses (same words / start frames / durations as the first pass, dictionary phones, emitting states, partition and contiguity at every level, score sums) are checked by a bounded native run on real decodes, for final results and -- since the property quantifies over them -- for alignments requested on partial results after every streamed block (which found and now guards the repaired partial-result defects D30 / D31). The hierarchy construction (populate, backtrace) is NOT under contract.",
     note="vector capacity proof + bounded propagate check; populate, backtrace and agreement with the first pass not covered; trusted: CBMC 6.11; end-to-end invariants on ~12 real decodes by a bounded native run (native/e2e_invariants.c), never counted as proved",
     technique="CBMC function contract (goto-instrument --dfcc) for vector_grow_one; CBMC bounded unwinding with unwinding assertions for alignment_propagate; plus a bounded native run of the property's end-to-end invariants on real decodes (safety net, not proof)")
